@@ -90,14 +90,13 @@ static void zck_clear(zckCtx *zck) {
 }
 
 static int hex_to_int (char c) {
-    if (c >= 97)
-        c = c - 32;
-    int result = (c / 16 - 3) * 10 + (c % 16);
-    if (result > 9)
-        result--;
-    if (result < 0 || result > 15)
-        return -1;
-    return result;
+    if (c >= '0' && c <= '9')
+        return c - '0';
+    if (c >= 'a' && c <= 'f')
+        return c - 'a' + 10;
+    if (c >= 'A' && c <= 'F')
+        return c - 'A' + 10;
+    return -1;
 }
 
 
